@@ -103,6 +103,31 @@ theorem history_consistent_tree (n : Nat) (l r : TT.C01.BTree)
           (rootOf (TT.C01.postorder (TT.C01.setupIndexes n (.node l r))))) :=
   history_consistent n thr w _ st0 (wf_postorder_setupIndexes n l r hleaves) hist ms hag hR hS hL
 
+/-- **C03's plain pass is C01's loop**: whenever C01's one-site `Option` model of
+  `calculate_treelikelihood_discrete` succeeds, its value is the C03 plain site value.  So C01's
+  `peel_eq_marginal` (= sum over all labelings) and C12's `hasDerivAt_siteLik_branch` (derivative in a
+  branch length) speak about `siteLik … (peel …)`, and by `rescaled_eq_plain`, `safe_eq_plain`,
+  `hasDerivAt_rescaled_iff_plain`, `hasDerivAt_safe_iff_plain` about the rescaled and safe passes. -/
+theorem plain_siteLik_eq_C01 (π : Fin S → ℝ) (props : Fin K → ℝ) (mats : Mats ℝ K S) (ts : List Triple)
+    (nT : Nat) (tips : Nat → Fin N → Fin S → ℝ) (m : Fin N) (x : ℝ)
+    (h : TT.C01.siteLik π props mats ts nT (fun i s => tips i m s) = some x) :
+    siteLik π props ((peel 0 noTips mats (tipStore tips) ts).get (rootOf ts)) m = x :=
+  (siteLik_eq_C01 π props mats ts nT tips m x h).symm
+
+example : siteLik Ex.inp.freqs Ex.inp.props ((peel 0 noTips Ex.M (tipStore fun i _ s =>
+      if (i = 1 ∧ s = 1) ∨ (i ≠ 1 ∧ s = 0) then (1 : ℝ) else 0) Ex.ts).get (rootOf Ex.ts)) (0 : Fin 1) =
+    (TT.C01.siteLik Ex.inp.freqs Ex.inp.props Ex.M Ex.ts 3
+      (fun i s => if (i = 1 ∧ s = 1) ∨ (i ≠ 1 ∧ s = 0) then (1 : ℝ) else 0)).getD 0 := by
+  cases h : TT.C01.siteLik Ex.inp.freqs Ex.inp.props Ex.M Ex.ts 3
+      (fun i s => if (i = 1 ∧ s = 1) ∨ (i ≠ 1 ∧ s = 0) then (1 : ℝ) else 0) with
+  | none =>
+    exfalso
+    simp [TT.C01.siteLik, TT.C01.rootPartial, TT.C01.peelLoop, TT.C01.peelStep, TT.C01.tipStore, Ex.ts,
+      TT.C01.Store.set] at h
+  | some x =>
+    simpa using plain_siteLik_eq_C01 (N := 1) Ex.inp.freqs Ex.inp.props Ex.M Ex.ts 3
+      (fun i _ s => if (i = 1 ∧ s = 1) ∨ (i ≠ 1 ∧ s = 0) then (1 : ℝ) else 0) 0 x h
+
 /-- the instance `Ex` IS such a post-order: the caterpillar ((0,1),2) with 3 taxa -/
 example : TT.C01.postorder (TT.C01.setupIndexes 3 (.node (.node (.leaf 0) (.leaf 1)) (.leaf 2))) = Ex.ts := by
   decide
